@@ -16,7 +16,7 @@ RULE = ("a pool of distinct API calls ({parse, DateDataParser().get_date_data, l
         "as adversarial sandwiches c,x,c (x differing from c in one dimension or failing), concatenated per worker, with "
         "long-lived instances created at first use; every step's outcome must equal the reference. Monitors: settings-registry "
         "conservation at every quiescent point (drift triggers targeted probing of long-lived instances), caller-argument "
-        "immutability, post-conditions on _try_parser (DATE_ORDER restored) and _add_to_cache (entry just written is present). "
+        "immutability, tripwires on _try_parser (DATE_ORDER left rewritten triggers the order-less victims at once) and _add_to_cache. "
         "non-trivial distinct = distinct (previous call, call) pairs executed, i.e. distinct one-step histories.")
 ASSUMPTIONS = ["the reference is produced by the same code in a pristine process: the check asserts history-freedom, not values",
                "try_previous_locales and detect_languages_function are excluded as the statement says",
@@ -47,6 +47,7 @@ class Post:
     def __init__(self, ctx):
         self.ctx = ctx
         self.current = None   # call in flight
+        self.tripped = None   # set by the DATE_ORDER tripwire
 
     def install(self):
         ctx = self.ctx
@@ -58,8 +59,9 @@ class Post:
         def tp_after(token, args, kwargs, result, exc):
             now = args[0]._settings.DATE_ORDER
             if now != token:
-                ctx.violation({"call": post.current, "locale": args[0].locale.shortname}, now, token,
-                              "postcondition:DATE_ORDER-not-restored", {"exc": type(exc).__name__ if exc else None})
+                # a trigger, not a verdict: the order-less victims of the pool are asked right after this call returns
+                ctx.count("tripwire:DATE_ORDER-left-rewritten")
+                post.tripped = (args[0].locale.shortname, now, token)
 
         wrap("dateparser.date", "_DateLocaleParser._try_parser", tp_before, tp_after, name="post:_try_parser")
 
@@ -72,10 +74,8 @@ class Post:
             key, name = self_._settings.registry_key, self_.info["name"]
             ok = cache is not None and key in cache and name in cache[key] and cache[key][name] is value
             if not ok:
-                ctx.violation({"call": post.current, "locale": name, "limit": self_._settings.CACHE_SIZE_LIMIT,
-                               "cached_keys": len(cache) if cache is not None else None},
-                              "entry missing right after _add_to_cache", "entry present",
-                              "postcondition:cache-lost-own-entry", {})
+                # observable by the very next statement of the library (KeyError escapes the call): counted only
+                ctx.count("tripwire:cache-lost-own-entry")
 
         wrap("dateparser.languages.dictionary", "Dictionary._add_to_cache", None, ac_after, name="post:_add_to_cache")
 
@@ -120,6 +120,9 @@ class Runner:
         self.post.current = call
         out = C.execute(call, self.insts, self.mutations)
         self.post.current = None
+        if self.post.tripped:
+            trip, self.post.tripped = self.post.tripped, None
+            self.probe_after_trip(call, trip)
         self.history.append(call)
         ctx.ran()
         ctx.nontrivial(self.prev and (self.prev["id"], self.prev["api"]), call["id"], call["api"])
@@ -139,6 +142,39 @@ class Runner:
             ctx.count("drift:%s" % attr)
             self.probe_after_drift(key, call)
         self.prev = call
+
+    def probe_after_trip(self, cause, trip):
+        """DATE_ORDER was left rewritten by `cause` on the settings object registered for cause's settings: ask the
+        order-less locale through the long-lived parser that shares that object (created before any history ran), then
+        through a fresh one, where a leaked order changes the value."""
+        if cause["api"] not in ("parse", "ddp", "inst") or "st" in cause:
+            return
+        for s in ("01/02/2015", "2015/01/02 10:45"):
+            v = {"api": "ddp", "s": s, "lang": "tl", "si": cause["si"], "nobase": cause["nobase"], "grp": "victim"}
+            key = (s, cause["si"], cause["nobase"])
+            if key not in self._vref:
+                self._vref[key] = self.server().run([v])[0]
+            ref = self._vref[key]
+            for c in (dict(v, api="inst"), v):
+                out = C.execute(c, self.insts)
+                self.ctx.ran()
+                self.ctx.count("tripwire_probes")
+                if not C.same_outcome(out, ref):
+                    c = dict(c, id=-1)
+                    self.history.append(c)
+                    self.ctx.violation({"call": c, "culprit": cause, "history_tail": [h["id"] for h in self.history[-6:]],
+                                        "note": "DATE_ORDER was left at %r (was %r) in locale %s by the culprit call" % (
+                                            trip[1], trip[2], trip[0])}, out, ref, "history-dependence",
+                                       {"api": c["api"], "culprit_api": cause["api"], "dimension": "language+string",
+                                        "reproduced_in_pristine_replay": None, "outcome_kind": "value", "exc": None})
+                    return
+
+    def precreate_victims(self):
+        """Long-lived order-less parsers, one per settings variant of the pool, exist before any history runs."""
+        self._vref = {}
+        for nobase, table in ((False, C.SETTINGS), (True, C.NOBASE_SETTINGS)):
+            for si in range(len(table)):
+                C.execute({"api": "inst", "s": "01/02/2015", "lang": "tl", "si": si, "nobase": nobase}, self.insts)
 
     def probe_after_drift(self, key, cause):
         """A registered Settings instance changed: make the change observable if it can be, by calling
@@ -289,6 +325,7 @@ def run_shard(ctx, desc):
     failing = [c for c in pool if refs[c["id"]][0] == "exc"]
     idx = (by_set, by_lang, by_api, failing)
     try:
+        r.precreate_victims()
         # fixed stratum (seed-independent): the sandwiches the design probes found
         if desc["i"] == 0:
             for c in fixed_history(pool):
